@@ -97,6 +97,12 @@ pub fn reach_flags(u: &Universe, ty: &Ty) -> Vec<&'static str> {
     }) {
         out.push("mixed_int_repr_enum");
     }
+    if u.any_ty(ty, &|t| matches!(t, Ty::Leaf(Leaf::SocketAddr))) {
+        out.push("socket_addr");
+    }
+    if u.any_ty(ty, &|t| matches!(t, Ty::Map(MapKind::Hash, _, _) | Ty::Map(MapKind::Index, _, _))) {
+        out.push("hash_or_index_map");
+    }
     out
 }
 
